@@ -2,7 +2,7 @@
 checks the halves in parallel). -/
 import DdsModel.Proofs.ConvInt
 namespace Dds.ConvProofs
-open Dds Dds.Conv Dds.Spec
+open Dds Dds.Conv Dds.Spec Dds.ConvRange
 set_option maxRecDepth 100000
 theorem s16n16_c10 : allRange (okInt s16n16 65535 (snorm 16) tieZero) 8 32768 8192 = true := by decide +kernel
 theorem s16n16_c11 : allRange (okInt s16n16 65535 (snorm 16) tieZero) 8 40960 8192 = true := by decide +kernel
